@@ -327,6 +327,12 @@ class IntermediateStates:
                 s.name for s in generic_indices_from_space(block[0])
             )
             idx.insert(-1, new_idx)
+        # each matrix product S*S contracts an unrestricted index string
+        # -> prefactor 1/(n_occ! * n_virt!) per contraction
+        n_ov = n_ov_from_space(block[0])
+        contraction_pref = Rational(
+            1, factorial(n_ov["occ"]) * factorial(n_ov["virt"])
+        )
         # iterate over exponents and terms, starting with the lowest exponent
         res = sympify(0)
         for pref, termlist in taylor_expansion:
@@ -334,7 +340,7 @@ class IntermediateStates:
             # all originate from x*x or x^3 etc.
             for term in termlist:
                 relevant_idx = idx[:len(term)] + [idx[-1]]
-                i1 = pref
+                i1 = pref * contraction_pref ** (len(term) - 1)
                 for o in term:
                     i1 *= self.overlap_precursor(
                         order=o, block=block, indices=tuple(relevant_idx[:2])
